@@ -133,9 +133,12 @@ func CoordinatesHint(hint *Hint) int {
 	usedY := 0
 	lines := strings.Split(text, term.ClearLineAfter)
 
-	for i, line := range lines {
-		x, y := strutil.LineSpan([]rune(line), i, 0)
-		if x != 0 {
+	for _, line := range lines {
+		// Each section starts on a row of its own: count the rows
+		// it spans, not the newline that separates it from the last.
+		line = strings.TrimPrefix(line, term.NewlineReturn)
+		x, y := strutil.LineSpan([]rune(line), 0, 0)
+		if x != 0 || y == 0 {
 			y++
 		}
 
